@@ -259,7 +259,7 @@ func cmdCheck(args []string) int {
 	byBackend := map[string]int{}
 	solverMs := int64(0)
 	var violations []string
-	var knownMatched []string
+	knownMatched := []string{}
 	var funcsUnder []map[string]interface{}
 	var assumptions []string
 	asmSeen := map[string]bool{}
@@ -276,7 +276,13 @@ func cmdCheck(args []string) int {
 		fe := map[string]interface{}{"function": u.Name, "pos": u.Pos, "src_sha256_8": u.SrcHash, "obligations": len(u.Obls)}
 		if u.Trusted {
 			fe["status"] = "assumed (trusted / no body)"
-			addAsm("assumed contract (not verified against a body): " + u.Name)
+			note := ""
+			if pi := w.pkgs[u.Pkg]; pi != nil && pi.cf != nil {
+				if c := pi.cf.Contracts[u.Func]; c != nil && len(c.Notes) > 0 {
+					note = " -- " + strings.Join(c.Notes, "; ")
+				}
+			}
+			addAsm("assumed contract (not verified against a body): " + u.Name + note)
 			funcsUnder = append(funcsUnder, fe)
 			continue
 		}
